@@ -16,7 +16,8 @@
         than a thousand ordinary calls); B: what BinaryCIFData.deserialize(compress(..).serialize())
         returns, element i projected with the unit 10^A.v[i].p; packed: "ok" when the msgpack round
         trip works and gives the same array, "Rejected" when it raises, "differs" otherwise.
-   kind = "file":     {cin, reps, hist, outs, werr, cout, eq, hist2, outs2, werr2, cout2, eq2}
+   kind = "file":     {cin, reps, hist, outs, werr, cout, eq, hist2, outs2, werr2, cout2, eq2, nm, nm1, nm2}
+                      (nm = <<block names, category names>> as built, nm1 / nm2 as read back)
         a BinaryCIFFile with the columns cin (each [name, A, M] with M = <<>> or <<mask array>>; reps[j] = the
         memory representations of data and mask array of column j) was built, the operations hist (each
         <<j, op>>: op of BcifColumn.Ops on column j - read accesses, in-place writes into the data / mask array,
@@ -112,9 +113,10 @@ JudgeFile(e, i) ==
      ELSE IF /\ OutsOk(e.outs, e.hist, L1)
              /\ IF FileRefused(L1) THEN e.werr
                 ELSE /\ ~e.werr /\ e.eq /\ SameCols(e.cout, ContentOf(L1), names)
+                     /\ e.nm1 = e.nm       \* the names of the block and of the category come back unchanged
                      /\ OutsOk(e.outs2, e.hist2, L2)
                      /\ IF FileRefused(L2) THEN e.werr2
-                        ELSE ~e.werr2 /\ e.eq2 /\ SameCols(e.cout2, ContentOf(L2), names)
+                        ELSE ~e.werr2 /\ e.eq2 /\ SameCols(e.cout2, ContentOf(L2), names) /\ e.nm2 = e.nm
           THEN TRUE ELSE PrintT(<<"MISMATCH", tid, i, "unknown", {}, "ok">>)
 
 Init == tid \in 1..Len(Tr) /\ l = 0
